@@ -56,7 +56,10 @@ row("BoxSlice", "Box<[i32]>", ["vec![1, 2].into_boxed_slice()"])
 for n in [0, 1, 2, 3, 32]:
     row("Array%d" % n, "[i32; %d]" % n, ["[1i32; %d]" % n])
 row("Array_Inner", "[Inner; 2]", ["[%s, Inner::v2()]" % I], users=["Inner"])
+row("Array63", "[i32; 63]", [], de=False)
 row("Array64", "[i32; 64]", [], de=False)
+row("Vec_Array64", "Vec<[u8; 64]>", [], de=False)
+row("Option_Array65", "Option<[bool; 65]>", [], de=False)
 row("Array65", "[i32; 65]", [], de=False)
 row("Tuple1", "(i32,)", ["(1,)"])
 row("Tuple2", "(i32, String)", ['(1, "a".to_string())'])
@@ -244,6 +247,19 @@ def judge_rows(rows, prefix, dprefix, c, obs, env, v, acc):
         acc["records"].append({"kind": "wit", "decls": [], "root": root, "json": tsparse.json_value(w), "accepted": acc_,
                                "reser": tsparse.json_value(json.loads(r["ok"])) if acc_ else {"k": "null"}})
         acc["meta"].append((name, "name", "wit", js, text, r))
+    # a type built from library types only has one presentation: name() and inline() are the same type
+    for n, (name, ty, vals, de, users) in enumerate(rows):
+        if users:
+            continue
+        info = obs["%s%d" % (prefix, n)]["info"]
+        if "ok" in info["name"] and "ok" in info["inline"]:
+            try:
+                ta, tb = tsparse.strip(tsparse.parse_type(info["name"]["ok"])), tsparse.strip(tsparse.parse_type(info["inline"]["ok"]))
+            except tsparse.TsSyntaxError:
+                continue
+            acc["records"].append({"kind": "same", "decls": [], "root": ta, "other": tb, "json": {"k": "null"}, "accepted": True, "reser": {"k": "null"}})
+            acc["meta"].append((name, "name() vs inline()", "same", info["name"]["ok"][:200], info["inline"]["ok"][:200]))
+            acc["pairs"] += 1
     # only Option is an option: under #[ts(optional_fields)] a field of any other library type is bound as without it
     for n, (name, ty, vals, de, users) in enumerate(rows):
         if ty.startswith("Option<"):
